@@ -81,6 +81,8 @@ def kind_of(path):
         return "dir"
     if statmod.S_ISREG(st.st_mode):
         return "file"
+    if statmod.S_ISFIFO(st.st_mode):
+        return "fifo"
     return "special"
 
 
